@@ -40,7 +40,61 @@ def _partition(rng, h, w, k):
     return blocks
 
 
+_PLUS_SIZES = [(3, 4), (4, 3), (3, 5), (5, 3), (4, 4), (4, 4), (4, 5), (5, 4), (4, 5), (5, 4)]
+
+
+def _plus_partition(rng, h, w):
+    """2-3 regions: one region is exactly a tetromino-shaped set of four cells (so its piece is forced), and a neighbouring
+    region contains a whole 'plus' (a cell and its four neighbours) touching it, so that a T tetromino whose centre has all
+    four neighbours in its own region can sit next to a forced L / T / S / I piece."""
+    cells = [(y, x) for y in range(h) for x in range(w)]
+    pieces = _tetrominoes_in(cells)
+    for _ in range(60):
+        forced = set(rng.choice(pieces))
+        rest = [c for c in cells if c not in forced]
+        if not _connected(rest):
+            continue
+        rest_set = set(rest)
+        centres = [(y, x) for (y, x) in rest if all((y + dy, x + dx) in rest_set for dy, dx in _DIRS)]
+        centres = [(y, x) for (y, x) in centres
+                   if any((y + dy + ey, x + dx + ex) in forced for dy, dx in _DIRS + ((0, 0),) for ey, ex in _DIRS)]
+        if not centres:
+            continue
+        cy, cx = rng.choice(centres)
+        owner = {c: 1 for c in forced}
+        owner[(cy, cx)] = 0
+        for dy, dx in _DIRS:
+            owner[(cy + dy, cx + dx)] = 0
+        k = 2
+        free = [c for c in rest if c not in owner]
+        if len(free) >= 4 and rng.random() < 0.35:
+            owner[rng.choice(free)] = 2
+            k = 3
+        while len(owner) < len(cells):
+            frontier = [(c, owner[(c[0] + dy, c[1] + dx)]) for c in cells if c not in owner
+                        for dy, dx in _DIRS if owner.get((c[0] + dy, c[1] + dx), 1) != 1]
+            if not frontier:
+                break
+            c, i = rng.choice(frontier)
+            owner[c] = i
+        if len(owner) < len(cells):
+            continue
+        blocks = [[] for _ in range(k)]
+        for c in cells:
+            blocks[owner[c]].append(list(c))
+        return blocks
+    return _partition(rng, h, w, 2)
+
+
 def gen_problem(rng, tier):
+    if rng.random() < 0.35:
+        h, w = rng.choice(_PLUS_SIZES)
+        blocks = _plus_partition(rng, h, w)
+        if rng.random() < 0.3:
+            rng.shuffle(blocks)
+            for b in blocks:
+                rng.shuffle(b)
+        return {"height": h, "width": w, "blocks": blocks}
     h, w = rng.choice(_SIZES)
     n = h * w
     kmax = max(1, n // 4)
@@ -66,6 +120,25 @@ def keys(problem, result):
     return list(result[0].data)
 
 
+def _tetrominoes_in(block):
+    """All sets of four orthogonally connected cells of `block` (grown cell by cell from each start cell; a superset filter
+    for `answer_space` only -- `rule_check` re-verifies size and connectivity with its own flood fill)."""
+    cells = {tuple(c) for c in block}
+    found = set()
+    level = {frozenset([c]) for c in cells}
+    for _ in range(3):
+        nxt = set()
+        for s in level:
+            for (y, x) in s:
+                for dy, dx in _DIRS:
+                    q = (y + dy, x + dx)
+                    if q in cells and q not in s:
+                        nxt.add(s | {q})
+        level = nxt
+    found = level
+    return sorted(tuple(sorted(s)) for s in found)
+
+
 def answer_space(problem):
     h, w = problem["height"], problem["width"]
     n = h * w
@@ -73,13 +146,14 @@ def answer_space(problem):
         for vals in itertools.product((False, True), repeat=n):
             yield list(vals)
         return
-    # larger boards: all grids with exactly four shaded cells in every region (a superset of the rule-obeying grids, rule 1)
-    opts = [list(itertools.combinations([y * w + x for y, x in b], 4)) for b in problem["blocks"]]
+    # larger boards: all grids that shade, in every region, four orthogonally connected cells of that region and nothing else
+    # (a superset of the rule-obeying grids by rule 1; rules 1-4 are all re-checked by rule_check)
+    opts = [_tetrominoes_in(b) for b in problem["blocks"]]
     for combo in itertools.product(*opts):
         g = [False] * n
         for sel in combo:
-            for i in sel:
-                g[i] = True
+            for (y, x) in sel:
+                g[y * w + x] = True
         yield g
 
 
